@@ -1,0 +1,95 @@
+//! Verification hooks (only compiled with `--cfg mos_verif`): scheduling points for a controlled
+//! scheduler and a tap on executed instructions. All functions are no-ops until a harness
+//! installs a `Scheduler`.
+
+use std::sync::{Arc, Mutex, RwLock};
+
+/// A probe tells whether the synchronisation operation that follows the point could complete
+/// right now (e.g. `try_lock` succeeds).
+pub type Probe = Box<dyn Fn() -> bool + Send + Sync>;
+
+pub trait Scheduler: Send + Sync {
+    /// The calling thread is about to perform the synchronisation operation `label`.
+    fn point(&self, label: &'static str, probe: Option<Probe>);
+    /// The calling thread polls (sleeps in a loop); `true` = the scheduler handled the wait.
+    fn yield_point(&self, label: &'static str) -> bool;
+    /// The calling thread is about to spawn a thread that will call `thread_start`.
+    fn pre_spawn(&self);
+    fn thread_start(&self, name: &'static str);
+    fn thread_end(&self);
+    /// The emulated CPU is about to execute the instruction at `pc`.
+    fn executed(&self, pc: u16);
+}
+
+static SCHEDULER: RwLock<Option<Arc<dyn Scheduler>>> = RwLock::new(None);
+
+pub fn install(scheduler: Arc<dyn Scheduler>) {
+    *SCHEDULER.write().unwrap() = Some(scheduler);
+}
+
+pub fn uninstall() {
+    *SCHEDULER.write().unwrap() = None;
+}
+
+fn scheduler() -> Option<Arc<dyn Scheduler>> {
+    SCHEDULER.read().unwrap().clone()
+}
+
+pub fn point(label: &'static str) {
+    if let Some(s) = scheduler() {
+        s.point(label, None);
+    }
+}
+
+pub fn point_mutex<T: Send + 'static>(label: &'static str, mutex: &Arc<Mutex<T>>) {
+    if let Some(s) = scheduler() {
+        let m = mutex.clone();
+        s.point(label, Some(Box::new(move || m.try_lock().is_ok())));
+    }
+}
+
+pub fn point_read<T: Send + Sync + 'static>(label: &'static str, lock: &Arc<RwLock<T>>) {
+    if let Some(s) = scheduler() {
+        let l = lock.clone();
+        s.point(label, Some(Box::new(move || l.try_read().is_ok())));
+    }
+}
+
+pub fn point_write<T: Send + Sync + 'static>(label: &'static str, lock: &Arc<RwLock<T>>) {
+    if let Some(s) = scheduler() {
+        let l = lock.clone();
+        s.point(label, Some(Box::new(move || l.try_write().is_ok())));
+    }
+}
+
+/// `true` when a scheduler took care of the wait (the caller then skips its real sleep).
+pub fn yield_point(label: &'static str) -> bool {
+    match scheduler() {
+        Some(s) => s.yield_point(label),
+        None => false,
+    }
+}
+
+pub fn pre_spawn() {
+    if let Some(s) = scheduler() {
+        s.pre_spawn();
+    }
+}
+
+pub fn thread_start(name: &'static str) {
+    if let Some(s) = scheduler() {
+        s.thread_start(name);
+    }
+}
+
+pub fn thread_end() {
+    if let Some(s) = scheduler() {
+        s.thread_end();
+    }
+}
+
+pub fn executed(pc: u16) {
+    if let Some(s) = scheduler() {
+        s.executed(pc);
+    }
+}
